@@ -28,6 +28,7 @@ class Scenario:
     yields: dict                   # asyncio: callback name -> number of `await asyncio.sleep(0)` (0-2)
     split: list = dataclasses.field(default_factory=list)   # asyncio: uids whose send is `c = sm.send(); await sleep(0); await c`
     gaps: list = dataclasses.field(default_factory=list)    # asyncio: gaps[i] = number of `await asyncio.sleep(0)` sender i does before each send
+    attach: list = dataclasses.field(default_factory=list)  # asyncio: senders that call `sm.add_listener(<plain object>)` before their first send
     gran: str = "full"             # threads: "full" = every line of event/statemachine/sync/base; "engine" = sync/base only
     name: str = "scn"
 
@@ -66,6 +67,29 @@ class Scenario:
 
 
 PROBE_UID = 9999
+
+
+class U:
+    """The identity of a sent event travels as a keyword argument; it compares (and hashes) equal to every
+    other `U`, so that two sends of `go` are *value-equal* events — they are still two events, and each must
+    be processed exactly once."""
+    __slots__ = ("n",)
+
+    def __init__(self, n):
+        self.n = n
+
+    def __eq__(self, other):
+        return isinstance(other, U)
+
+    def __hash__(self):
+        return 3
+
+    def __repr__(self):
+        return f"U({self.n})"
+
+
+def un(uid):
+    return uid.n if isinstance(uid, U) else uid
 
 
 # ----------------------------------------------------------------------------- observation
